@@ -347,8 +347,8 @@ Proof.
   unfold num_close in C. apply Qle_bool_iff in C. apply Qabs_Qle_condition in C. destruct C as [C1 C2]. lra.
 Qed.
 Lemma mt_rnd2 q r s : match_toks 0 (TRnd2 q :: r) s = true ->
-  exists n s' x, s = n ++ s' /\ numeral n = true /\ parse_decimal n = Some x /\ is_hundredth x = true
-                 /\ Qabs (x - q) <= 1 # 200 /\ match_toks 0 r s' = true.
+  exists n s' x, s = n ++ s' /\ numeral n = true /\ parse_decimal n = Some x /\ is_millionth x = true
+                 /\ Qabs (x - q) <= 1 # 2000000 /\ match_toks 0 r s' = true.
 Proof.
   cbn [match_toks]. destruct (span_num s) as [n s'] eqn:E. destruct (parse_decimal n) as [x|] eqn:P; [|discriminate].
   intro H. apply andb_true_iff in H. destruct H as [H M]. apply andb_true_iff in H. destruct H as [Hh C].
@@ -420,12 +420,12 @@ Proof.
   cbn [concat]. rewrite IH. reflexivity.
 Qed.
 
-(* two hundredths within half a hundredth of each other are equal *)
-Lemma hundredth_eq x q : is_hundredth x = true -> is_hundredth q = true -> Qabs (x - q) <= 1 # 200 -> x == q.
+(* two millionths within half a millionth of each other are equal *)
+Lemma millionth_eq x q : is_millionth x = true -> is_millionth q = true -> Qabs (x - q) <= 1 # 2000000 -> x == q.
 Proof.
-  unfold is_hundredth. intros Hx Hq H. apply Qeq_bool_iff in Hx. apply Qeq_bool_iff in Hq.
+  unfold is_millionth. intros Hx Hq H. apply Qeq_bool_iff in Hx. apply Qeq_bool_iff in Hq.
   apply Qabs_Qle_condition in H. destruct H as [L U].
-  set (a := Qfloor (x * 100)) in *. set (b := Qfloor (q * 100)) in *.
+  set (a := Qfloor (x * 1000000)) in *. set (b := Qfloor (q * 1000000)) in *.
   assert (E: a = b).
   { assert (A1: (a - b < 1)%Z). { rewrite Zlt_Qlt. unfold Z.sub. rewrite inject_Z_plus, inject_Z_opp. change (inject_Z 1) with 1. lra. }
     assert (A2: (b - a < 1)%Z). { rewrite Zlt_Qlt. unfold Z.sub. rewrite inject_Z_plus, inject_Z_opp. change (inject_Z 1) with 1. lra. }
